@@ -22,6 +22,19 @@ CHECKS = {
         technique="TLA+ spec of NumPy indexing vs both lowerings, TLC exhaustive over bounded index tuples, cases replayed into converter+ORT/eager/NumPy",
         design_ref="DESIGN.md section 4 C11",
     ),
+    "C12": dict(
+        level="model_checking",
+        text="Autocast.tla runs the three front ends' type-variable binding algorithms (converter: last binding + CastLike; eager: dtype of last "
+             "Tensor; builder: first ir.Value, dynamic CastLike) and the documented rule on every argument pattern of every distinct signature "
+             "shape of the real schema registry (opsets 13..23, dumped to JSON at run time); TLC checks they agree; ConstCache.tla models the "
+             "builder's constant cache as a state machine over promotion histories (CacheSound). The harness expands patterns to concrete "
+             "(op, version, literal, sibling dtype) calls, observes dtype and bit-level value of the operand actually fed in script(), eager mode "
+             "and GraphBuilder, and replays cache histories into a real GraphBuilder.",
+        note="CastLike results are evaluated with onnxruntime's Cast; negative literals beside unsigned siblings are not judged; quick tier samples "
+             "ops/dtypes/literals by seed, thorough uses every op of every signature shape",
+        technique="TLA+ model of the three binding algorithms over the real schema registry + cache state machine; TLC exhaustive; cases and histories replayed into the 3 front ends",
+        design_ref="DESIGN.md section 4 C12",
+    ),
 }
 
 NOT_YET = "check not built yet (in progress)"
